@@ -9,10 +9,10 @@ import common as C
 
 PID = "C12"
 DRIVER = [("C12", "TfPwaV.Model.WignerF", "WignerF.handle"), ("C12s", "TfPwaV.Gen.SU2F", "SU2F.handle")]
-LEAN_TARGETS = ["TfPwaV.Props.C12", "TfPwaV.Props.C12b", "TfPwaV.Gen.SU2F"]
-PROP_MODULES = ["TfPwaV.Props.C12", "TfPwaV.Props.C12b"]
+LEAN_TARGETS = ["TfPwaV.Props.C12", "TfPwaV.Props.C12b", "TfPwaV.Props.C12c", "TfPwaV.Gen.SU2F"]
+PROP_MODULES = ["TfPwaV.Props.C12", "TfPwaV.Props.C12b", "TfPwaV.Props.C12c"]
 ALL_MODULES = ["TfPwaV.Model.Wigner", "TfPwaV.Proofs.Wigner", "TfPwaV.Proofs.WignerU7", "TfPwaV.Proofs.WignerU8",
-               "TfPwaV.Props.C12", "TfPwaV.Proofs.SU2", "TfPwaV.Props.C12b"]
+               "TfPwaV.Props.C12", "TfPwaV.Proofs.SU2", "TfPwaV.Props.C12b", "TfPwaV.Props.C12c"] + ["TfPwaV.Proofs.CgOrtho" + k for k in "ABCDEFG"]
 ASSUMPTIONS = [
     "float table entries are compared with the exact model value sign*sqrt(q) at relative 1e-13 (a wrong factorial, sign or index changes an entry by >= 1e-2 relative)",
     "sympy's CG(...).doit().evalf() is the run-time path of cg_coef; it is compared with the exact Racah value, sympy itself is not verified",
@@ -368,7 +368,7 @@ def replay(ctx, payload):
 
 
 MANIFEST = {
-    "text": "Lean theorems: for every spin 2j<=8, all m,m' and ALL real beta (incl. 0 and pi) the small-d matrix built from the modelled weights is orthogonal (d_unitary), via a kernel-checked homogeneous polynomial identity valid for all real s,c (z_poly_unitary) lifted to the reals; Clebsch-Gordan coefficients by Racah's closed form with kernel-checked exact orthonormality over the spin grid; SU2M algebra (associativity, det multiplicative, inv is the two-sided inverse for det 1, Rz/Ry/Bz have det 1) and the Euler-angle round trip Rz(gamma)Ry(beta)Rz(alpha) = U for EVERY U in SU(2) incl. beta = 0, pi (euler_roundtrip). The model's weights/CG values are compared entry by entry with small_d_weight, small_d_matrix, D_matrix_conj, cg_coef (sympy path) and the bundled cg_table on every run.",
+    "text": "Lean theorems: for every spin 2j<=8, all m,m' and ALL real beta (incl. 0 and pi) the small-d matrix built from the modelled weights is orthogonal (d_unitary), via a kernel-checked homogeneous polynomial identity valid for all real s,c (z_poly_unitary) lifted to the reals; Clebsch-Gordan coefficients by Racah's closed form with kernel-checked exact orthonormality over the whole 2j<=8 grid, integer and half-integer (cg_orthonormal); SU2M algebra (associativity, det multiplicative, inv is the two-sided inverse for det 1, Rz/Ry/Bz have det 1) and the Euler-angle round trip Rz(gamma)Ry(beta)Rz(alpha) = U for EVERY U in SU(2) incl. beta = 0, pi (euler_roundtrip). The model's weights/CG values are compared entry by entry with small_d_weight, small_d_matrix, D_matrix_conj, cg_coef (sympy path) and the bundled cg_table on every run.",
     "note": "Model = TfPwaV.Wigner (exact Rat/Int). Tie = line-protocol comparison of every table entry and of matrix elements on edge+random angles. templates/SU2.lean.in (real-pair transcription of SU2M) compared op by op with the real class. D(R1)D(R2)=D(R1R2) and unitarity of rotation-boost-rotation products are validated on the implementation (search), not proved. Trusted: Lean kernel, standard axioms, sympy CG evaluation, libm.",
     "technique": "Lean 4 proof (kernel-evaluated exact polynomial/rational identities lifted to the reals) + exhaustive table correspondence with the implementation",
 }
